@@ -123,6 +123,7 @@ type item struct {
 	shape string // for suffix: post | dot | idx | call
 	arg   string // operand text of the suffix (property, index, argument)
 	word  string // registered word, if any (for substitution)
+	brk   bool   // a line break (instead of a space) precedes this item in the source text
 }
 
 // levels: the exported constants of the parser package are public API.
@@ -310,6 +311,11 @@ type regOp struct {
 
 var wordPool = []string{"OPa", "OPb", "OPc", "OPd", "OPe", "OPf"}
 
+// oddNames are registered as token types only (never given an operator role, never used in probes):
+// keyword spellings and names that are no identifiers. Their ids must be as stable, distinct and
+// outside the built-in range as any other name's.
+var oddNames = []string{"null", "true", "false", "function", "let", "if", "else", "while", "for", "return", "", " ", "+", "&&", "a b", "\u00e9", "EOF", "ILLEGAL"}
+
 func newPair() *pair {
 	p := &pair{lb: lexer.NewBuilder(), model: newRegModel(), words: map[string]token.Type{}}
 	p.lb.UseTokenInterceptor(func(l *lexer.Lexer, next func() token.Token) token.Token {
@@ -401,7 +407,11 @@ func render(items []item) string {
 	var sb strings.Builder
 	for i, it := range items {
 		if i > 0 {
-			sb.WriteByte(' ')
+			if it.brk {
+				sb.WriteString("\n  ")
+			} else {
+				sb.WriteByte(' ')
+			}
 		}
 		sb.WriteString(it.text)
 	}
@@ -576,7 +586,16 @@ func genProbe(ch *kernel.Chooser, snap *regModel, st *kernel.Stats) (probe, bool
 		}
 		st.Inc("cover.postfix")
 	}
-	// occasionally wrap a sub-range in explicit parentheses
+	// layout: a line break may precede any infix operator (built-in or registered) — JavaScript and xjs
+	// continue the expression there; never before a suffix (++, call, index), where they do not
+	for i := 1; i < len(items); i++ {
+		if items[i].kind == kInfix && ch.Bool(1, 6) {
+			items[i].brk = true
+			if items[i].word != "" {
+				st.Inc("probe.line_break_before_registered_infix_operator")
+			}
+		}
+	}
 	return probe{items: items, text: render(items), focus: r.role}, true
 }
 
@@ -584,9 +603,9 @@ func genProbe(ch *kernel.Chooser, snap *regModel, st *kernel.Stats) (probe, bool
 // built-in one of the same level/role; ok=false when some operator has no built-in counterpart.
 func substituted(items []item, snap *regModel) (text string, relabel map[string]string, ok bool) {
 	relabel = map[string]string{}
-	out := make([]string, len(items))
+	out := make([]item, len(items))
 	for i, it := range items {
-		out[i] = it.text
+		out[i] = it
 		if it.word == "" {
 			continue
 		}
@@ -596,17 +615,17 @@ func substituted(items []item, snap *regModel) (text string, relabel map[string]
 			if !has {
 				return "", nil, false
 			}
-			out[i] = sym
+			out[i].text = sym
 			relabel[it.word] = sym
 		case kPrefix:
-			out[i] = "!"
+			out[i].text = "!"
 			relabel["pre:"+it.word] = "!"
 		case kSuffix:
 			// a call-level suffix: an empty call
 			return "", nil, false // handled by the reference model (a call has a different tree shape)
 		}
 	}
-	return strings.Join(out, " "), relabel, true
+	return render(out), relabel, true
 }
 
 func parseExpr(pb *parser.Builder, text string) (ast.Expression, string) {
@@ -793,6 +812,11 @@ func (e *Engine) Run(prop string, ch *kernel.Chooser, st *kernel.Stats) kernel.R
 		switch ch.Weighted(4, 2, 5, 2, 5) {
 		case 0: // RegisterTokenType
 			name := wordPool[ch.Choose(len(wordPool))]
+			odd := ch.Bool(1, 4)
+			if odd {
+				name = oddNames[ch.Choose(len(oddNames))]
+				st.Inc("probe.keyword_or_non_identifier_name_registered")
+			}
 			op := regOp{Kind: "tok", Name: name, Pair: pi}
 			id, _ := p.applyReal(op)
 			_, seen := p.model.ids[name]
@@ -812,8 +836,10 @@ func (e *Engine) Run(prop string, ch *kernel.Chooser, st *kernel.Stats) kernel.R
 					add("token-id", "token-id|builtin-range", fmt.Sprintf("pair %d: RegisterTokenType(%q) returned %d, inside the built-in token range", pi, name, id))
 				}
 				p.model.ids[name] = id
-				p.model.order = append(p.model.order, name)
-				p.words[name] = id
+				if !odd {
+					p.model.order = append(p.model.order, name)
+					p.words[name] = id
+				}
 			}
 			op.Type = int(id)
 			hist = append(hist, op)
